@@ -28,9 +28,10 @@ var skelTrackedFields = map[string]bool{
 
 type skel struct {
 	toks []string
+	ren  map[string]string // local name -> v<k> (alpha-normalisation, see alpha.go)
 }
 
-func (k *skel) emit(s string) { k.toks = append(k.toks, s) }
+func (k *skel) emit(s string) { k.toks = append(k.toks, alphaToken(s, k.ren)) }
 
 func exprStr(e ast.Expr) string {
 	if e == nil {
@@ -61,7 +62,7 @@ func (k *skel) expr(e ast.Node) {
 			}
 		case *ast.CallExpr:
 			name := callName(x)
-			if name != "" && !skelIgnoreCalls[name] {
+			if name != "" && !skelIgnoreCalls[name] && !strings.HasPrefix(name, "log.") && !strings.HasPrefix(name, "slog.") {
 				k.emit("call " + name)
 			}
 		}
@@ -256,6 +257,7 @@ func f10() {
 		}
 		k := &skel{}
 		if fn := findFunc(f, t.fn); fn != nil {
+			k.ren = localNames(fn)
 			k.block(fn.Body)
 		} else {
 			k.emit("<function not found>")
@@ -304,7 +306,7 @@ func f11() {
 				if !ok || fn.Body == nil {
 					continue
 				}
-				k := &skel{}
+				k := &skel{ren: localNames(fn)}
 				k.block(fn.Body)
 				toks = append(toks, "func "+fl+":"+fn.Name.Name+" {")
 				toks = append(toks, k.toks...)
